@@ -570,8 +570,10 @@ theorem C20_count_schur_4 :
 set_option maxRecDepth 100000 in
 /-- the symmetry-breaking model (the default of `SchurLemmaProblem`) for n = 4 has 17 solutions, the
     number asserted by tests/examples/test_schur_lemma.py; all of them are sum-free colourings
-    (`C20_schurLemma_sb_valid`).  For ODD n the symmetry-breaking constraint is a lexicographic_leq
-    over 3n variables, an odd number: outside `Contract .lexLeq`, so `Ready` does not hold. -/
+    (`C20_schurLemma_sb_valid`).  (For ODD n the symmetry-breaking constraint is a lexicographic_leq over 3n
+    variables, an odd number: the code compares the first ⌊3n/2⌋ with the next ⌊3n/2⌋ and ignores the last one;
+    `Contract .lexLeq` was relaxed to `2 ≤ length` and the seven local contracts re-proved for odd arity, so the
+    engine theorems cover that model too.) -/
 theorem C20_count_schur_sb_4 :
     ∃ L : List (List Int), L.Nodup ∧ (∀ σ, σ ∈ L ↔ Sol (schurLemmaProblem 4 true) σ) ∧ L.length = 17 ∧
       ∀ σ ∈ L, ValidSchur 4 σ := by
